@@ -970,12 +970,15 @@ func TestReplay(t *testing.T) {
 			return checkReslice(c.Args, c.Lo, c.Hi, c.Variadic)
 		},
 		"hoststruct": func(raw json.RawMessage) *ev.Failure {
-			var c struct{ Instances int }
+			var c struct {
+				Instances int
+				Shared    bool
+			}
 			json.Unmarshal(raw, &c)
 			if c.Instances < 1 {
 				c.Instances = 2
 			}
-			return checkHostStructs(c.Instances)
+			return checkHostStructs(c.Instances, c.Shared)
 		},
 		"vargs":  replayVCase,
 		"reentrant": func(raw json.RawMessage) *ev.Failure {
